@@ -116,14 +116,16 @@ func (jt *JSONTable) RenderTo(w io.Writer) error {
 	if _, err = io.WriteString(w, "[\n"); err != nil {
 		return err
 	}
-	needComma := false
-	for _, r := range jt.AllRows() {
-		if needComma {
-			if _, err = io.WriteString(w, ",\n"); err != nil {
-				return err
-			}
-			needComma = false
+	rows := jt.AllRows()
+	// A comma belongs after an object only if another object follows it;
+	// trailing separators must not leave a dangling comma.
+	lastObject := -1
+	for i, r := range rows {
+		if !r.IsSeparator() {
+			lastObject = i
 		}
+	}
+	for i, r := range rows {
 		if r.IsSeparator() {
 			if _, err = io.WriteString(w, "\n"); err != nil {
 				return err
@@ -133,7 +135,11 @@ func (jt *JSONTable) RenderTo(w io.Writer) error {
 		if err = jt.emitRowAsJSONObject(w, skipableColumns, keys, r.Cells()); err != nil {
 			return err
 		}
-		needComma = true
+		if i < lastObject {
+			if _, err = io.WriteString(w, ",\n"); err != nil {
+				return err
+			}
+		}
 	}
 	// We assume need newline prefix because no comma+newline from new row,
 	// but if the table is empty, this will result in "[\n\n]\n" which is
